@@ -95,7 +95,7 @@ func resolve(w *World, b []byte) (repr string, content []byte, err error) {
 func replayMigrate(c *core.Ctx, lfsBin string, b *behaviour, idx int) (*core.Violation, error) {
 	root := filepath.Join(c.Work, fmt.Sprintf("w%d", idx))
 	defer os.RemoveAll(root)
-	w, err := NewWorldOpts(root, filepath.Dir(lfsBin), c.Seed, WorldOpts{NoAttrs: true})
+	w, err := NewWorldOpts(root, filepath.Dir(lfsBin), c.Seed, WorldOpts{NoAttrs: true, RawBig: b.hash%2 == 1})
 	if err != nil {
 		return nil, err
 	}
